@@ -7,7 +7,7 @@ From CiwV Require Acc.C19.
 From CiwV Require Acc.C20.
 From CiwV.Engine Require Codec.
 From CiwV.Engine Require Codec2.
-From CiwV.Inv Require ConserveRun CapacityRun.
+From CiwV.Inv Require ConserveRun CapacityRun AllRun.
 Import ListNotations.
 Open Scope Z_scope.
 
@@ -42,6 +42,7 @@ Fixpoint upto (m : nat) : list nat := match m with O => [O] | S k => upto k ++ [
 
 Definition dispatch_model (name : Z) (s : sx) : sx :=
   match name with
+  | 36 => AllRun.run_invs s       (* every executable T2 invariant on one snapshot: L [wfx; cap; clk; ...] *)
   | 35 => CapacityRun.run_capb s   (* capacity hypotheses of engine_capacity on a snapshot *)
   | 34 => ConserveRun.run_wfx s   (* does a snapshot satisfy the conservation invariant WFx []? *)
   | 33 => Codec2.run_wrap s  (* engine model stage 2: Simulation.wrap_up_servers(T) *)
